@@ -71,6 +71,8 @@ def decEv (j : Json) : R (Ev Int Int) := do
   | "write" => .ok (.write (← asStr (← fld j "path")) (← asInt (← fld j "content")) (← asBool (fldD j "statable" (Json.bool true))))
   | "remove" => .ok (.remove (← asStr (← fld j "path")))
   | "setwd" => .ok (.setwd (← asStr (← fld j "wd")))
+  | "chdir" => .ok (.chdir (← asStr (← fld j "dir")))
+  | "link" => .ok (.link (← asStr (← fld j "path")) (← asStr (← fld j "target")))
   | "load" => .ok (.load (← asStr (← fld j "name")) (← asInt (← fld j "args")))
   | e => .error s!"event {e}"
 
@@ -80,31 +82,39 @@ def encAns (a : Option (Option (Int × Int))) : Json :=
   | some none => Json.str "OSError"
   | some (some (x, y)) => Json.arr #[ofInt x, ofInt y]
 
-/-- a loader variant over a history (for labelling what the implementation does) -/
-def runWith (ld : Cache Int (Int × Int) → FS Int → String → String → Int →
+/-- a loader variant over a history (for labelling what the implementation does); `memo` = the remembered name
+resolutions when `sticky` (seeded defect C20-9), unused otherwise -/
+def runWith (sticky : Bool) (ld : Cache Int (Int × Int) → FS Int → Env → String → String → Int →
       Option (Int × Int) × Cache Int (Int × Int)) :
-    FS Int → Nat → String → Cache Int (Int × Int) → List (Ev Int Int) →
+    FS Int → Nat → Env → List (String × String) → Cache Int (Int × Int) → List (Ev Int Int) →
     List (Option (Option (Int × Int)))
-  | _, _, _, _, [] => []
-  | fs, clk, wd, c, .write p x _ :: es =>
-    none :: runWith ld (fun q => if q = p then some ⟨some clk, x⟩ else fs q) (clk + 1) wd c es
-  | fs, clk, wd, c, .remove p :: es =>
-    none :: runWith ld (fun q => if q = p then none else fs q) clk wd c es
-  | fs, clk, _, c, .setwd d :: es => none :: runWith ld fs clk d c es
-  | fs, clk, wd, c, .load n a :: es =>
-    let r := ld c fs n (resolvePath wd n) a
-    some r.1 :: runWith ld fs clk wd r.2 es
+  | _, _, _, _, _, [] => []
+  | fs, clk, env, m, c, .write p x _ :: es =>
+    none :: runWith sticky ld (fun q => if q = p then some ⟨some clk, x⟩ else fs q) (clk + 1) env m c es
+  | fs, clk, env, m, c, .remove p :: es =>
+    none :: runWith sticky ld (fun q => if q = p then none else fs q) clk env m c es
+  | fs, clk, env, m, c, .setwd d :: es => none :: runWith sticky ld fs clk { env with wd := d } m c es
+  | fs, clk, env, m, c, .chdir d :: es => none :: runWith sticky ld fs clk { env with cwd := d } m c es
+  | fs, clk, env, m, c, .link p t :: es =>
+    none :: runWith sticky ld fs clk { env with links := (p, t) :: env.links } m c es
+  | fs, clk, env, m, c, .load n a :: es =>
+    let rp := if sticky then resolveMemo m env n else (resolvePath env n, m)
+    let r := ld c fs env n rp.1 a
+    some r.1 :: runWith sticky ld fs clk env rp.2 r.2 es
 
 def handleMemo (j : Json) : R Json := do
   let evs ← asList decEv (← fld j "events")
   let f : Int → Int → Int × Int := fun a c => (a, c)
   let evict : Cache Int (Int × Int) → Cache Int (Int × Int) := fun c => c.take 128
+  let env0 : Env := ⟨"", "cwd", []⟩
   .ok (obj [("model", ofList encAns (run resolvePath f evict World.init evs)),
             ("spec", ofList encAns (runSpec resolvePath f evict World.init evs)),
-            ("stale", ofList encAns (runWith (memoLoadStale f) (fun _ => none) 1 "" [] evs)),
-            ("unresolved", ofList encAns (runWith
-              (fun c fs n r a => memoLoadUnresolvedIdent f c fs (resolvePath "" n) r a)
-              (fun _ => none) 1 "" [] evs))])
+            ("stale", ofList encAns (runWith false (fun c fs _ n r a => memoLoadStale f c fs n r a) (fun _ => none) 1 env0 [] [] evs)),
+            ("unresolved", ofList encAns (runWith false
+              (fun c fs env n r a => memoLoadUnresolvedIdent f c fs (resolvePath { env with wd := "" } n) r a)
+              (fun _ => none) 1 env0 [] [] evs)),
+            ("sticky_resolution", ofList encAns (runWith true (fun c fs _ n r a => memoLoad f evict c fs n r a)
+              (fun _ => none) 1 env0 [] [] evs))])
 
 def handleText (j : Json) : R Json := do
   let lines ← asList asStr (← fld j "lines")
